@@ -301,6 +301,7 @@ fn c08_grid(tier: Tier) -> Vec<Program> {
                                 _ => vec![len / 2 + 1, len / 3, 1],
                             };
                             s.vectored = [0u16, 0, 0, 2, 0, 0, 1025][n % 7];
+                            s.decoy_opts = n % 4 == 1;
                             steps.push(Step { op: Op::Write(s), fl });
                             out.push(Program { keys: keys.clone(), blobs, steps });
                         }
